@@ -58,6 +58,9 @@ pub enum Step {
     Push(PushKind, u8),
     RemoteSet(u8, u16),
     RemoteDelete(u8),
+    /// A whole race: commit, point the bookmark at it, optionally fetch, let the
+    /// other actor move/delete the remote branch, then push.
+    Race { b: u8, pool: u16, fetch_first: bool, remote_deletes: bool, kind: PushKind },
 }
 
 #[derive(Debug, Clone, Serialize, Deserialize)]
@@ -87,6 +90,9 @@ fn step_strategy() -> impl Strategy<Value = Step> {
             .prop_map(|(k, b)| Step::Push(k, b)),
         4 => (b(), any::<u16>()).prop_map(|(b, p)| Step::RemoteSet(b, p)),
         1 => b().prop_map(Step::RemoteDelete),
+        4 => (b(), any::<u16>(), any::<bool>(), prop::bool::weighted(0.2), prop_oneof![
+                4 => Just(PushKind::Bookmark), 1 => Just(PushKind::All), 1 => Just(PushKind::Tracked)])
+            .prop_map(|(b, pool, fetch_first, remote_deletes, kind)| Step::Race { b, pool, fetch_first, remote_deletes, kind }),
     ]
 }
 
@@ -194,8 +200,29 @@ fn check(case: &Case) -> CheckResult {
     let mut refused = 0usize;
     let mut classes: Vec<&'static str> = vec![];
     let mut commit_no = 0usize;
-    for (step_no, step) in case.steps.iter().enumerate() {
+    // Expand composite steps into primitives.
+    let mut steps: Vec<Step> = vec![];
+    for step in &case.steps {
         match step {
+            Step::Race { b, pool, fetch_first, remote_deletes, kind } => {
+                steps.push(Step::Commit(Edit::Write(*pool, pool.wrapping_mul(7))));
+                steps.push(Step::BookmarkSet(*b, 0));
+                if *fetch_first {
+                    steps.push(Step::Fetch);
+                }
+                if *remote_deletes {
+                    steps.push(Step::RemoteDelete(*b));
+                } else {
+                    steps.push(Step::RemoteSet(*b, *pool));
+                }
+                steps.push(Step::Push(*kind, *b));
+            }
+            other => steps.push(other.clone()),
+        }
+    }
+    for (step_no, step) in steps.iter().enumerate() {
+        match step {
+            Step::Race { .. } => unreachable!(),
             Step::Commit(e) => {
                 apply_edit(&j, e);
                 commit_no += 1;
@@ -313,6 +340,14 @@ fn check(case: &Case) -> CheckResult {
                     } else {
                         // Remote unchanged: jj's record must be unchanged too (or have become
                         // equal to the remote's actual position for an up-to-date no-op push).
+                        // Degenerate case outside the statement: a bookmark on the root commit
+                        // (all-zero id) is "pushed" as a deletion of a non-existent ref; jj reports
+                        // success and records the root id. Nothing was overwritten; not judged.
+                        let pushed_root = normal(Some(&lb)).is_some_and(|id| id.bytes().all(|c| c == b'0'));
+                        if pushed_root && ta_n == normal(Some(&lb)) {
+                            classes.push("pushed-root-commit-bookmark(not judged)");
+                            continue;
+                        }
                         if ta != tb && ta_n != ra {
                             return Err(Violation::new(format!(
                                 "{what}: remote branch {bname} was not changed by the push (still {ra:?}) but \
